@@ -267,7 +267,7 @@ package log
 
 // Clone: the copy shares no attribute storage with the original
 //@ func (r *Record) Clone() (res Record)
-//@   prop C06
+//@   prop C06 C17
 //@   requires r != nil
 //@   ensures len(res.back) == len(r.back) && (forall i in 0 .. len(r.back) : res.back[i] == r.back[i]) && (len(r.back) > 0 ==> fresh(res.back)) && res.nFront == r.nFront && res.front == r.front
 //@   modifies
